@@ -218,6 +218,10 @@ pub fn u64_from_json(v: &Value) -> u64 {
   panic!("bad u64 json {}", v)
 }
 
+/// Registered by hpxmc: runs the call-sequence stratum of the property (seq.rs), if it has one.
+pub type SeqHook = fn(&Ctx, &mut Part) -> Option<Value>;
+pub static SEQ_HOOK: std::sync::OnceLock<SeqHook> = std::sync::OnceLock::new();
+
 /// Final step of a check run: write evidence, replays, the result file read by ./check.
 pub fn finish(
   ctx: &Ctx,
@@ -228,6 +232,14 @@ pub fn finish(
   extra: Map<String, Value>,
 ) -> i32 {
   let id = &ctx.id;
+  // call-sequence stratum (history independence), common to every property that has an alphabet
+  let mut total = total;
+  let mut extra = extra;
+  if let Some(hook) = SEQ_HOOK.get() {
+    if let Some(info) = hook(ctx, &mut total) {
+      extra.insert("call_sequences".into(), info);
+    }
+  }
   let wall = ctx.elapsed();
   std::fs::create_dir_all(format!("{}/evidence", ctx.verif_dir)).ok();
   std::fs::create_dir_all(format!("{}/replays", ctx.verif_dir)).ok();
